@@ -174,19 +174,21 @@ def hash_state(st):
 # minimisation of a failing tape
 # ---------------------------------------------------------------------------
 
-def still_fails(mod, scenario, values, rule):
+def still_fails(mod, scenario, values, rule, params=None):
+    """the first violation of a replay, if it is of the same class: same rule and (when
+    given) the same parameters - a shrunk tape must not drift to another cause"""
     try:
         res = one_run(mod, scenario, replay=values)
     except HarnessError:
         return None
     for v in res.get("violations", []):
-        if v["rule"] == rule:
+        if v["rule"] == rule and (params is None or v.get("params", {}) == params):
             return v, res
         break
     return None
 
 
-def minimise(mod, scenario, values, rule, budget_s=45.0, max_tries=500):
+def minimise(mod, scenario, values, rule, budget_s=45.0, max_tries=500, params=None):
     """delta debugging on the tape: truncate, zero whole label groups, zero
     chunks, delete draws, lower values.  A candidate is kept iff the run still
     yields a violation of the same rule."""
@@ -200,7 +202,7 @@ def minimise(mod, scenario, values, rule, budget_s=45.0, max_tries=500):
         if tries >= max_tries or time.perf_counter() > t_end:
             return False
         tries += 1
-        got = still_fails(mod, scenario, cand, rule)
+        got = still_fails(mod, scenario, cand, rule, params)
         if got is None:
             return False
         tape = got[1]["tape"]
@@ -292,7 +294,7 @@ def _reproduce(prop, v):
     values = v["tape"]
     if values is None:
         values = list(one_run(mod, v["scenario"], seed=v["seed"])["tape"].values)
-    if still_fails(mod, v["scenario"], values, v["rule"]) is not None:
+    if still_fails(mod, v["scenario"], values, v["rule"], v.get("params")) is not None:
         return values
     # the recorded tape ends where the worker's run ended; from a pristine state the
     # same seed may get further and fail later: take the tape of that run instead
@@ -304,12 +306,13 @@ def _reproduce(prop, v):
 
 def _minimise(prop, v, values, budget_s):
     mod = load_check(prop)
-    return minimise(mod, v["scenario"], values, v["rule"], budget_s=budget_s)
+    return minimise(mod, v["scenario"], values, v["rule"], budget_s=budget_s,
+                    params=v.get("params"))
 
 
 def _fails(prop, v, values):
     mod = load_check(prop)
-    return still_fails(mod, v["scenario"], values, v["rule"]) is not None
+    return still_fails(mod, v["scenario"], values, v["rule"], v.get("params")) is not None
 
 
 def _write(prop, v, values, tries):
@@ -426,7 +429,7 @@ def run_check(prop, tier, master, workers=None, runs_override=None):
         k = min(n, max(2, cfg.get("recheck", 8)))
         # early indices, so that they are certainly executed even if the budget ends the run
         recheck[name] = list(range(0, min(n, 50 * k), max(1, min(n, 50 * k) // k)))[:k]
-    wall_cap = cfg.get("chunk_wall", 240)
+    wall_cap = cfg.get("chunk_wall", 900)     # per chunk; generous: the machine may be loaded
 
     def main_jobs():
         pos = {name: 0 for name in shares}
